@@ -277,6 +277,63 @@ Fixpoint shuffle_objs (draws : list nat) (n : nat) (l : list obj) : list obj :=
   end.
 
 (* ---- operations ----------------------------------------------------------------------------------- *)
+(* ---- Concat (alignments only): appendToSequence goes through the name index ----------------- *)
+Definition append_by_name (st : cstate) (name add : list byte) : option cstate :=
+  match idx_lookup name (c_index st) with
+  | None => None
+  | Some id =>
+      Some (set_objs st (map (fun o => if Nat.eqb (oid o) id then (oid o, (oname o, oseq o ++ add)) else o) (c_objs st))
+                     (c_index st))
+  end.
+
+(* rows of a whose name c does not hold receive clen gaps *)
+Fixpoint concat_a (st : cstate) (anames : list (list byte)) (crows : rows) (clen : nat) : cstate * bool :=
+  match anames with
+  | [] => (st, true)
+  | n :: t =>
+      match lassoc n crows with
+      | Some _ => concat_a st t crows clen
+      | None =>
+          match append_by_name st n (repeat GAP clen) with
+          | None => (st, false)
+          | Some st' => concat_a st' t crows clen
+          end
+      end
+  end.
+
+(* rows of c: created with alen gaps when a does not hold the name, then extended *)
+Fixpoint concat_c (st : cstate) (crows : rows) (alen : nat) : cstate * bool :=
+  match crows with
+  | [] => (st, true)
+  | (n, s) :: t =>
+      let st1 := match idx_lookup n (c_index st) with
+                 | Some _ => st
+                 | None => match add_seq true st n (repeat GAP alen) with Added st' => st' | _ => st end
+                 end in
+      match append_by_name st1 n s with
+      | None => (st1, false)
+      | Some st2 => concat_c st2 t alen
+      end
+  end.
+
+Definition concat_op (st : cstate) (calpha : Z) (crows : rows) : cstate * bool :=
+  if negb (Z.eqb (c_alpha st) calpha) then (st, false)
+  else
+    let alen := Z.to_nat (Z.max 0 (c_len st)) in
+    let clen := match crows with [] => O | r :: _ => length (snd r) end in
+    let '(st1, ok1) := concat_a st (map oname (c_objs st)) crows clen in
+    if negb ok1 then (st1, false)
+    else
+      let '(st2, ok2) := concat_c st1 crows alen in
+      if negb ok2 then (st2, false)
+      else
+        match c_objs st2 with
+        | [] => (set_len st2 (-1), true)
+        | o :: t =>
+            (set_len st2 (Z.of_nat (length (oseq o))),
+             forallb (fun o' => Nat.eqb (length (oseq o')) (length (oseq o))) t)
+        end.
+
 Inductive cop :=
 | OpAdd (name seq : list byte)
 | OpPolicy (p : Z)
@@ -293,7 +350,8 @@ Inductive cop :=
 | OpClear
 | OpClone
 | OpSetChar (i j : Z) (c : byte)
-| OpSample (nb : Z) (perm : list nat).
+| OpSample (nb : Z) (perm : list nat)
+| OpConcat (calpha : Z) (c : rows).
 
 Definition keep_len (mn mx : Z) (s : list byte) : bool :=
   ((mn <? 0)%Z || (mn <=? Z.of_nat (length s))%Z) && ((mx <? 0)%Z || (Z.of_nat (length s) <=? mx)%Z).
@@ -346,7 +404,9 @@ Definition step (st : cstate) (op : cop) : cstate * bool :=
   | OpShuffle draws => (set_objs st (shuffle_objs draws (length (c_objs st)) (c_objs st)) (c_index st), true)
   | OpFilterLength mn mx =>
       (* promoted seqbag method: seqbag.Clear, seqbag.AddSequenceChar *)
-      add_all false (clear false st) (map snd (filter (fun o => keep_len mn mx (oseq o)) (c_objs st)))
+      let '(s, ok) := add_all false (clear false st) (map snd (filter (fun o => keep_len mn mx (oseq o)) (c_objs st))) in
+      (* the alignment's own method: no row left, no length left *)
+      ((if c_kind st then match c_objs s with [] => set_len s (-1) | _ => s end else s), ok)
   | OpClear => (clear (c_kind st) st, true)
   | OpClone =>
       (* NewAlign/NewSeqBag + IgnoreIdentical + AddSequenceChar of copies *)
@@ -367,6 +427,7 @@ Definition step (st : cstate) (op : cop) : cstate * bool :=
         let '(s, ok) := add_all false (mkst (c_kind st) IGNORE_NONE (c_alpha st) (-1) 0 [] []) (map snd picked) in
         (* seqBagToAlignment: length of the rows *)
         ((if c_kind st then set_len s (auto_len (c_objs s)) else s), ok)
+  | OpConcat calpha c => concat_op st calpha c
   end.
 
 Definition run (h : list cop) (st : cstate) : cstate := fold_left (fun s op => fst (step s op)) h st.
